@@ -2,50 +2,95 @@
 
 // Observers the harness needs inside package regexp2.  This file is copied into
 // the instrumented scratch copy only; nothing under /repo is changed.
+//
+// The observers look fields up by name through reflection, so that an edited
+// tree that renames or removes one of them still builds: the observer then
+// reports "unknown" (ok == false) and the oracle that needs it is skipped,
+// instead of the whole check failing to compile.
 package regexp2
+
+import (
+	"reflect"
+	"unsafe"
+)
+
+func verifField(v reflect.Value, name string) (reflect.Value, bool) {
+	for v.Kind() == reflect.Pointer || v.Kind() == reflect.Interface {
+		if v.IsNil() {
+			return reflect.Value{}, false
+		}
+		v = v.Elem()
+	}
+	if v.Kind() != reflect.Struct {
+		return reflect.Value{}, false
+	}
+	f := v.FieldByName(name)
+	if !f.IsValid() || !f.CanAddr() {
+		return reflect.Value{}, false
+	}
+	return reflect.NewAt(f.Type(), unsafe.Pointer(f.UnsafeAddr())).Elem(), true
+}
+
+type verifItemser interface{ Items() []any }
 
 // VerifRunnerCaps reports, over the interpreter states currently pooled by re, the
 // largest backtracking-stack capacity (and the other two stacks), and how many
-// states are pooled.
+// states are pooled.  ok is false when the pool or the stack cannot be found.
 //
 //go:norace
-func VerifRunnerCaps(re *Regexp) (track, stack, crawl, n int) {
-	if re.runnerPool == nil {
+func VerifRunnerCaps(re *Regexp) (track, stack, crawl, n int, ok bool) {
+	pf, found := verifField(reflect.ValueOf(re), "runnerPool")
+	if !found || !pf.CanInterface() {
 		return
 	}
-	for _, it := range re.runnerPool.Items() {
-		r, ok := it.(*Runner)
-		if !ok || r == nil {
+	pool, isPool := pf.Interface().(verifItemser)
+	if !isPool || pool == nil || reflect.ValueOf(pool).IsNil() {
+		return 0, 0, 0, 0, isPool
+	}
+	ok = true
+	for _, it := range pool.Items() {
+		rv := reflect.ValueOf(it)
+		if !rv.IsValid() || rv.Kind() != reflect.Pointer || rv.IsNil() {
 			continue
 		}
 		n++
-		if len(r.runtrack) > track {
-			track = len(r.runtrack)
-		}
-		if len(r.runstack) > stack {
-			stack = len(r.runstack)
-		}
-		if len(r.runcrawl) > crawl {
-			crawl = len(r.runcrawl)
+		for i, name := range [3]string{"runtrack", "runstack", "runcrawl"} {
+			f, found := verifField(rv, name)
+			if !found || f.Kind() != reflect.Slice {
+				if i == 0 {
+					ok = false
+				}
+				continue
+			}
+			l := f.Len()
+			switch i {
+			case 0:
+				if l > track {
+					track = l
+				}
+			case 1:
+				if l > stack {
+					stack = l
+				}
+			case 2:
+				if l > crawl {
+					crawl = l
+				}
+			}
 		}
 	}
 	return
 }
 
-// VerifTrackCount is the number of backtracking instructions of the compiled program.
+// VerifTrackCount is the number of backtracking instructions of the compiled program (0 if unknown).
 func VerifTrackCount(re *Regexp) int {
-	if re.code == nil {
+	c, found := verifField(reflect.ValueOf(re), "code")
+	if !found {
 		return 0
 	}
-	return re.code.TrackCount
-}
-
-// VerifHasQuickCode tells whether a bool-only program exists for re.
-func VerifHasQuickCode(re *Regexp) bool { return re.quickCode != nil }
-
-// VerifClockState exposes the timeout clock's internals (evidence probes only).
-//
-//go:norace
-func VerifClockState() (running bool, current, clockEnd int64, started bool) {
-	return fast.running, int64(fast.current.read()), int64(fast.clockEnd.read()), !fast.start.IsZero()
+	t, found := verifField(c, "TrackCount")
+	if !found || !t.CanInt() {
+		return 0
+	}
+	return int(t.Int())
 }
